@@ -102,6 +102,23 @@ def builders():
         nlong[0] += 1
         return [255, 256, 257, 512, 513, 300, 768, 1024][(nlong[0] // 3) % 8] if nlong[0] % 3 == 0 else r.randrange(0, 12)
 
+    nscn = [0]
+
+    def scn_settings(r):
+        """the settings of a status change notification request: given (0..4 targets), or - every third time - LEFT OUT, the
+        optional argument's default; the time before that the caller built such a request without settings and then added entries
+        to the PDU's own dictionary (a PDU under construction) - which is nobody else's dictionary"""
+        nscn[0] += 1
+        if nscn[0] % 3 == 1:
+            p0 = R.RadioControlProtocol(opcode=R.RCPOpcode.StatusChangeNotificationRequest)
+            for t in r.sample([x for x in R.StatusChangeNotificationTargets], 2):
+                p0.status_change_settings[t] = r.choice([x for x in R.StatusChangeNotificationSetting])
+            p0.as_bytes()
+        if nscn[0] % 3 == 2:
+            return dict()
+        return dict(status_change_settings={t: r.choice([x for x in R.StatusChangeNotificationSetting])
+                                            for t in r.sample([x for x in R.StatusChangeNotificationTargets], r.randrange(0, 5))})
+
     O = R.RCPOpcode
     ct = lambda r: r.choice(list(R.RCPCallType))
     res = lambda r: r.choice(list(R.RCPResult))
@@ -124,8 +141,7 @@ def builders():
         "SendTalkerAliasReply": lambda r: dict(result=res(r), call_type=ct(r), sender_id=id32(r), target_id=id32(r)),
         "ZoneAndChannelOperationRequest": lambda r: dict(raw_payload=gen.rbytes(r, 5)),
         "ZoneAndChannelOperationReply": lambda r: dict(raw_payload=gen.rbytes(r, r.choice([1, 6, 9]))),
-        "StatusChangeNotificationRequest": lambda r: dict(status_change_settings={t: r.choice([x for x in R.StatusChangeNotificationSetting])
-                                                                                  for t in r.sample([x for x in R.StatusChangeNotificationTargets], r.randrange(0, 5))}),
+        "StatusChangeNotificationRequest": lambda r: scn_settings(r),
         "RadioStatusReport": lambda r: dict(status_change_target=r.choice([x for x in R.StatusChangeNotificationTargets]), status_change_value=r.randrange(1 << 16)),
         # a pass-through payload is any octets: lengths that need the second octet of the (little-endian) RCP length field, whose
         # two octets read the other way round give a smaller number (256, 512, 513 ...), are walked through by a counter
